@@ -332,6 +332,9 @@ theorem visitE_finv (cfg : Config) (W : String → Prop) : ∀ (e : Expr) (n : N
   | .binop i op l r, n, e', D, n', hf, hw, h => by
       simp only [fragE, Bool.and_eq_true] at hf
       simp only [writesE, List.mem_append] at hw
+      simp only [visitE] at h
+      split at h
+      · simp at h
       vopen h
       obtain ⟨v1, d1, n1, hv, s1, d2, n2, hs, h⟩ := h
       rcases hE1 : ensure cfg "BinOp" "left" v1 n2 with ⟨v2, h1, n3⟩
